@@ -35,7 +35,7 @@ RULE = ('scenario = seeded prefix history building a store, one target '
         'counts individual fault runs. Non-trivial = the kill landed inside '
         'the target call range and recovery found a hot journal; distinct '
         'by (scenario digest, k, mode).')
-PROBES = ['hot_journal_rolled_back', 'killed_after_commit_before_ack',
+PROBES = ['io_error_mixed_batch', 'hot_journal_rolled_back', 'killed_after_commit_before_ack',
           'batch_prefix_state_observed', 'io_error_reported_failure',
           'double_crash', 'startup_crash', 'keypair_target',
           'destroy_target', 'attribute_target']
@@ -475,6 +475,17 @@ def execute(plan):
                 acked_ok = ack is not None and ack['ack'] is not None and (
                     startup or all(i['status'] == 0
                                    for i in ack['ack']['items']))
+                if not match and mode != crash.KILL and nitems > 1 and \
+                        ack is not None and ack['ack'] is not None:
+                    sts = [i['status'] for i in ack['ack']['items']]
+                    if any(s == 0 for s in sts) and any(s != 0
+                                                        for s in sts):
+                        # Continue batch hit by a disk error: some items
+                        # failed (and left nothing), later ones succeeded.
+                        # The result is no item-prefix state; integrity and
+                        # row completeness were checked above.
+                        probes['io_error_mixed_batch'] += 1
+                        continue
                 if not match:
                     flag('store-is-neither-before-nor-after',
                          tables_differing=sorted(
